@@ -4,8 +4,11 @@
    Gen/C11_Tables.v (gen_tmap, gen_conn_tmap, gen_tcp_statuses, socket constants),
    specification (kernel printers, demanded rows): C11/Spec.v.
    [current] is the code as it is now; [before_repairs] the code before the fixes d36edd1 (get_all_inodes keeps
-   every holder) and 9cf9292 (the UNIX name is cut after the single blank that follows the inode). *)
-From PV Require Import C11.Spec C11.ProofsTables C11.ProofsAddr C11.Proofs.
+   every holder) and 9cf9292 (the UNIX name is cut after the single blank that follows the inode).
+   [o : ipv6_oracle] = the host's IPv6 support (does inet_ntop(AF_INET6) work; what supports_ipv6() answers);
+   [ipv6_ok] = both yes.  [*_adds] = the sequence of ret.add() calls, the public functions return [as_set] of it;
+   [*_log] = the /proc/net files handed to open_text(). *)
+From PV Require Import C11.Spec C11.ProofsTables C11.ProofsAddr C11.ProofsLines C11.Proofs.
 
 (* ---- the tables of the code, as they are now *)
 
@@ -44,30 +47,65 @@ Theorem C11_tcp_status_table : forall st, 1 <= st <= 11 ->
 Proof. exact tcp_status_table. Qed.
 Print Assumptions C11_tcp_status_table.
 
-(* any other string as kind: ValueError, whatever the files and descriptor tables hold
-   (nothing is read: the answer does not depend on them), system-wide and per process *)
-Theorem C11_unknown_kind : forall v le files procs pid ls k, ~ In k kinds ->
-  net_connections v le files procs k = Exc ValueError
-  /\ proc_net_connections v le files pid ls k = Exc ValueError.
+(* any other string as kind: ValueError, whatever the files and descriptor tables hold and whatever the host;
+   nothing is read (the access log is empty and the answer does not depend on the tables) *)
+Theorem C11_unknown_kind : forall v le o files procs pid ls k, ~ In k kinds ->
+  (net_connections_adds v le o files procs k = Exc ValueError
+   /\ net_connections v le o files procs k = Exc ValueError
+   /\ net_log v le o files procs k = [])
+  /\ (proc_net_connections_adds v le o files pid ls k = Exc ValueError
+      /\ proc_net_connections v le o files pid ls k = Exc ValueError
+      /\ proc_log v le o files pid ls k = []).
 Proof. intros. split; [now apply unknown_kind_sys|now apply unknown_kind_proc]. Qed.
 Print Assumptions C11_unknown_kind.
 
-(* ---- address decoding: every IPv4/IPv6 address, every port, both byte orders *)
-Theorem C11_addr_roundtrip : forall le ip port, wf_ip ip = true -> wf_port port = true ->
-  decode_address le (k_addr le ip port) (if is_v6 ip then AF_INET6 else AF_INET)
-  = Val (if port =? 0 then ANone else AInet (ip_bytes ip) port).
+(* ---- address decoding: every IPv4/IPv6 address, every port, both byte orders, every host *)
+Theorem C11_addr_roundtrip : forall le o ip port, wf_ip ip = true -> wf_port port = true ->
+  decode_address le o (k_addr le ip port) (if is_v6 ip then AF_INET6 else AF_INET)
+  = if port =? 0 then Val (DAddr ANone)
+    else if is_v6 ip && negb (o_ntop6 o) then (if o_supported o then Exc ValueError else Val DUnsupported)
+    else Val (DAddr (AInet (ip_bytes ip) port)).
 Proof. exact addr_roundtrip. Qed.
 Print Assumptions C11_addr_roundtrip.
 
-(* ---- the whole answer, system-wide: for every kernel state (any number of sockets, processes, descriptors; sockets
-   shared between processes; UNIX names with leading / trailing / repeated blanks, @abstract names) and each of the
-   11 kinds the call succeeds and returns, in table order, exactly one row per demanded entry: the sockets of the kind's
-   (family, type) classes, addresses and port decoded, TCP state name / NONE, UNIX name, owner = a holder (pid, fd) or
-   (None, -1) when no holder is visible, one row per holder for UNIX sockets.  No exclusion. *)
+(* ... in particular the demanded address whenever it can be formatted (IPv4 always) *)
+Theorem C11_addr_roundtrip_demanded : forall le o ip port, wf_ip ip = true -> wf_port port = true ->
+  o_ntop6 o = true \/ is_v6 ip = false ->
+  decode_address le o (k_addr le ip port) (if is_v6 ip then AF_INET6 else AF_INET)
+  = Val (DAddr (if port =? 0 then ANone else AInet (ip_bytes ip) port)).
+Proof. exact addr_roundtrip_ok. Qed.
+Print Assumptions C11_addr_roundtrip_demanded.
+
+(* ---- T6: the returned list is duplicate-free and holds exactly the rows that were add()ed -- for EVERY input
+   (any file contents, any descriptor tables, any kind, any host), system-wide and per process *)
+Theorem C11_result_duplicate_free : forall v le o files procs kind rows,
+  net_connections v le o files procs kind = Val rows ->
+  NoDup rows /\ exists adds, net_connections_adds v le o files procs kind = Val adds
+                             /\ forall r, In r rows <-> In r adds.
+Proof. exact result_duplicate_free. Qed.
+Print Assumptions C11_result_duplicate_free.
+
+Theorem C11_proc_result_duplicate_free : forall v le o files pid ls kind rows,
+  proc_net_connections v le o files pid ls kind = Val rows ->
+  NoDup rows /\ exists adds, proc_net_connections_adds v le o files pid ls kind = Val adds
+                             /\ forall r, In r rows <-> In r adds.
+Proof. exact proc_result_duplicate_free. Qed.
+Print Assumptions C11_proc_result_duplicate_free.
+
+(* ---- the whole answer, system-wide, current code, host with IPv6: for every kernel state (any number of sockets,
+   processes, descriptors; sockets shared between processes; UNIX names with leading / trailing / repeated blanks,
+   @abstract names) and each of the 11 kinds:
+   - the add() sequence is, in table order, exactly one row per demanded entry (no socket twice, none missing): the
+     sockets of the kind's (family, type) classes, addresses and port decoded, TCP state name / NONE, UNIX name,
+     owner = a holder (pid, fd) or (None, -1) when no holder is visible, one row per holder for UNIX sockets;
+   - the call returns the set of those rows;
+   - exactly the existing tables of the kind are read, each once.  No exclusion. *)
 Theorem C11_system_wide : forall le st kind,
   wf_state st = true -> files_text_safe le st = true -> In kind kinds ->
-  exists rows, net_connections current le (k_files le st) (to_procs (k_procs st)) kind = Val rows
-               /\ Forall2 row_ok rows (spec_sys kind st).
+  exists adds, net_connections_adds current le ipv6_ok (k_files le st) (to_procs (k_procs st)) kind = Val adds
+               /\ Forall2 row_ok adds (spec_sys kind st)
+               /\ net_connections current le ipv6_ok (k_files le st) (to_procs (k_procs st)) kind = Val (as_set adds)
+               /\ net_log current le ipv6_ok (k_files le st) (to_procs (k_procs st)) kind = spec_log kind st.
 Proof. exact system_wide_current. Qed.
 Print Assumptions C11_system_wide.
 
@@ -75,43 +113,114 @@ Print Assumptions C11_system_wide.
    holder in the order the process and descriptor tables are scanned *)
 Theorem C11_system_wide_first_holder : forall le st kind,
   wf_state st = true -> files_text_safe le st = true -> In kind kinds ->
-  exists rows, net_connections current le (k_files le st) (to_procs (k_procs st)) kind = Val rows
-               /\ Forall2 row_ok rows (spec_sys_first kind st).
+  exists adds, net_connections_adds current le ipv6_ok (k_files le st) (to_procs (k_procs st)) kind = Val adds
+               /\ Forall2 row_ok adds (spec_sys_first kind st).
 Proof. exact system_wide_first_current. Qed.
 Print Assumptions C11_system_wide_first_holder.
 
 (* ---- per process (any process with a readable fd directory): only that process's sockets, one row per socket
-   (TCP/UDP, any of its descriptors) / per descriptor (UNIX) *)
+   (TCP/UDP, any of its descriptors) / per descriptor (UNIX); tables read only when it holds a socket *)
 Theorem C11_per_process : forall le st p kind,
   wf_state st = true -> files_text_safe le st = true -> wf_kproc p = true -> p_visible p = true ->
   In kind kinds ->
-  exists rows, proc_net_connections current le (k_files le st) (p_pid p) (to_listing p) kind = Val rows
-               /\ Forall2 row_ok rows (spec_proc p kind st).
+  exists adds, proc_net_connections_adds current le ipv6_ok (k_files le st) (p_pid p) (to_listing p) kind = Val adds
+               /\ Forall2 row_ok adds (spec_proc p kind st)
+               /\ proc_net_connections current le ipv6_ok (k_files le st) (p_pid p) (to_listing p) kind = Val (as_set adds)
+               /\ proc_log current le ipv6_ok (k_files le st) (p_pid p) (to_listing p) kind = spec_proc_log p kind st.
 Proof. exact per_process_current. Qed.
 Print Assumptions C11_per_process.
 
-(* the same two statements for either variant of the code: before the repairs exactly two classes had to be
-   excluded (UNIX socket held by two processes; UNIX name starting with white space) *)
-Theorem C11_system_wide_any_variant : forall v le st kind,
+(* ---- a process whose fd table yields no socket: [] at once; no table file is read -- whatever the tables hold
+   (any [files], even unreadable or malformed ones), any variant, any host *)
+Theorem C11_proc_no_sockets_reads_nothing : forall v le o files pid ents kind,
+  get_proc_inodes pid ents = Val [] -> In kind kinds ->
+  proc_net_connections_adds v le o files pid (LsOk ents) kind = Val []
+  /\ proc_net_connections v le o files pid (LsOk ents) kind = Val []
+  /\ proc_log v le o files pid (LsOk ents) kind = [].
+Proof. exact proc_no_sockets. Qed.
+Print Assumptions C11_proc_no_sockets_reads_nothing.
+
+(* ... stated on the kernel's side: no descriptor of the process is a socket *)
+Theorem C11_proc_no_sockets_kernel : forall v le o files p kind,
+  wf_kproc p = true -> p_visible p = true -> holds_no_socket p = true -> In kind kinds ->
+  proc_net_connections v le o files (p_pid p) (to_listing p) kind = Val []
+  /\ proc_log v le o files (p_pid p) (to_listing p) kind = [].
+Proof. exact proc_no_sockets_kernel. Qed.
+Print Assumptions C11_proc_no_sockets_kernel.
+
+(* ---- a host without IPv6 (inet_ntop cannot format it, supports_ipv6() = False): the call still succeeds; the
+   rows are those demanded for the state in which the IPv6 tables keep only the sockets with both ports 0
+   (nothing to format); the IPv4 and UNIX tables and the descriptor tables are untouched *)
+Theorem C11_ipv6_unsupported : forall le st kind,
+  let o := {| o_ntop6 := false; o_supported := false |} in
   wf_state st = true -> files_text_safe le st = true -> In kind kinds ->
+  exists adds, net_connections_adds current le o (k_files le st) (to_procs (k_procs st)) kind = Val adds
+               /\ Forall2 row_ok adds (spec_sys kind (restrict6 o st))
+               /\ k_tcp4 (restrict6 o st) = k_tcp4 st /\ k_udp4 (restrict6 o st) = k_udp4 st
+               /\ k_unix (restrict6 o st) = k_unix st /\ k_procs (restrict6 o st) = k_procs st
+               /\ k_tcp6 (restrict6 o st) = option_map (filter ports_zero) (k_tcp6 st)
+               /\ k_udp6 (restrict6 o st) = option_map (filter ports_zero) (k_udp6 st).
+Proof. exact ipv6_unsupported. Qed.
+Print Assumptions C11_ipv6_unsupported.
+
+(* ---- the same statements for either variant of the code and any host on which the IPv6 branch cannot raise
+   ValueError: before the repairs exactly two classes had to be excluded (UNIX socket held by two processes;
+   UNIX name starting with white space) *)
+Theorem C11_system_wide_any_variant : forall v le o st kind,
+  wf_state st = true -> files_text_safe le st = true -> In kind kinds ->
+  o_ntop6 o = true \/ o_supported o = false ->
   (covers_unix kind = true -> (v_merge v = true \/ unix_unshared st = true)
                               /\ (v_exact v = true \/ no_lead_ws st = true)) ->
-  exists rows, net_connections v le (k_files le st) (to_procs (k_procs st)) kind = Val rows
-               /\ Forall2 row_ok rows (spec_sys kind st).
+  exists adds, net_connections_adds v le o (k_files le st) (to_procs (k_procs st)) kind = Val adds
+               /\ Forall2 row_ok adds (spec_sys kind (restrict6 o st))
+               /\ net_connections v le o (k_files le st) (to_procs (k_procs st)) kind = Val (as_set adds)
+               /\ net_log v le o (k_files le st) (to_procs (k_procs st)) kind = spec_log kind st.
 Proof. exact system_wide. Qed.
 Print Assumptions C11_system_wide_any_variant.
 
-Theorem C11_per_process_any_variant : forall v le st p kind,
+Theorem C11_per_process_any_variant : forall v le o st p kind,
   wf_state st = true -> files_text_safe le st = true -> wf_kproc p = true -> p_visible p = true ->
-  In kind kinds -> (covers_unix kind = true -> v_exact v = true \/ no_lead_ws st = true) ->
-  exists rows, proc_net_connections v le (k_files le st) (p_pid p) (to_listing p) kind = Val rows
-               /\ Forall2 row_ok rows (spec_proc p kind st).
+  In kind kinds -> o_ntop6 o = true \/ o_supported o = false ->
+  (covers_unix kind = true -> v_exact v = true \/ no_lead_ws st = true) ->
+  exists adds, proc_net_connections_adds v le o (k_files le st) (p_pid p) (to_listing p) kind = Val adds
+               /\ Forall2 row_ok adds (spec_proc p kind (restrict6 o st))
+               /\ proc_net_connections v le o (k_files le st) (p_pid p) (to_listing p) kind = Val (as_set adds)
+               /\ proc_log v le o (k_files le st) (p_pid p) (to_listing p) kind = spec_proc_log p kind st.
 Proof. exact per_process. Qed.
 Print Assumptions C11_per_process_any_variant.
 
-(* the hypotheses are satisfied by concrete states: a TCP socket held by two processes, a hidden holder, an absent
-   tcp6 file, a UNIX name with a blank and an abstract name (first), and additionally a UNIX socket shared between
-   two processes whose name starts with a blank (second) *)
+(* ---- malformed lines: which inputs reach which branch *)
+(* process_inet raises RuntimeError ("malformed line") exactly for a line with fewer than 10 fields *)
+Theorem C11_inet_line_runtime_error : forall le o fam ty lk filt line,
+  inet_line le o fam ty lk filt line = Exc RuntimeError <-> (length (split_ws line) < 10)%nat.
+Proof. exact inet_line_runtime_error. Qed.
+Print Assumptions C11_inet_line_runtime_error.
+
+(* process_unix: a line with fewer than 7 fields is skipped when it holds no blank (issue 766) and raises
+   RuntimeError when it holds one; no other line raises RuntimeError *)
+Theorem C11_unix_line_short : forall v fam lk filt line, (length (split_ws line) < 7)%nat ->
+  unix_line v fam lk filt line = if contains 32 line then Exc RuntimeError else Val [].
+Proof. exact unix_line_short. Qed.
+Print Assumptions C11_unix_line_short.
+
+Theorem C11_unix_line_runtime_error : forall v fam lk filt line,
+  unix_line v fam lk filt line = Exc RuntimeError
+  <-> (length (split_ws line) < 7)%nat /\ contains 32 line = true.
+Proof. exact unix_line_runtime_error. Qed.
+Print Assumptions C11_unix_line_runtime_error.
+
+(* a /proc/net/unix file with blank-free junk lines of fewer than 7 fields anywhere between the records (what a
+   socket name containing a newline leaves behind): the answer is that of the file holding only the records *)
+Theorem C11_unix_junk_lines_change_nothing : forall v fam lk filt items,
+  forallb uitem_ok items = true ->
+  v_exact v = true \/ forallb (fun u => negb (path_lead_ws u)) (socks_of items) = true ->
+  text_safe (k_ufile_items items) = true -> text_safe (k_ufile (socks_of items)) = true ->
+  exists rows, process_unix v (Some (k_ufile_items items)) fam lk filt = Val rows
+               /\ process_unix v (Some (k_ufile (socks_of items))) fam lk filt = Val rows.
+Proof. exact unix_junk_lines_change_nothing. Qed.
+Print Assumptions C11_unix_junk_lines_change_nothing.
+
+(* ---- the hypotheses are satisfied by concrete states *)
 Theorem C11_hypotheses_satisfiable :
   let st := ex_state false (bs "/tmp/a b") in
   wf_state st = true /\ files_text_safe true st = true /\ unix_unshared st = true /\ no_lead_ws st = true
@@ -126,11 +235,29 @@ Theorem C11_full_domain_example :
 Proof. exact full_domain_example. Qed.
 Print Assumptions C11_full_domain_example.
 
+(* no IPv6: of an IPv6 UDP socket with ports and an IPv6 socket with both ports 0 only the latter is reported *)
+Theorem C11_ipv6_unsupported_example :
+  let o := {| o_ntop6 := false; o_supported := false |} in
+  let st := Build_kstate [ex_tcp] None [] (Some [ex_udp6; ex_v6_listen0]) [] (ex_procs false) in
+  wf_state st = true /\ files_text_safe true st = true
+  /\ exists adds, net_connections_adds current true o (k_files true st) (to_procs (k_procs st)) (bs "inet") = Val adds
+                  /\ map r_family adds = [2; 10] /\ map r_laddr adds = [AInet [127; 0; 0; 1] 22; ANone]
+                  /\ length (spec_sys (bs "inet") st) = 3%nat.
+Proof. exact ipv6_unsupported_example. Qed.
+Print Assumptions C11_ipv6_unsupported_example.
+
+Theorem C11_unix_items_example :
+  let items := [USock (ex_unix (bs "600") (bs "/tmp/a b") UStream);
+                UJunk (bs "000000000000000000000000000000000000000000000000000000"); UJunk []] in
+  forallb uitem_ok items = true /\ text_safe (k_ufile_items items) = true /\ length (socks_of items) = 1%nat.
+Proof. exact unix_items_example. Qed.
+Print Assumptions C11_unix_items_example.
+
 (* ---- the repaired defects: the code before the repairs really failed on the two excluded classes ... *)
 Theorem C11_unix_shared_refuted :
   exists st, wf_state st = true /\ files_text_safe true st = true /\ no_lead_ws st = true
              /\ unix_unshared st = false
-             /\ exists rows, net_connections before_repairs true (k_files true st) (to_procs (k_procs st)) (bs "unix") = Val rows
+             /\ exists rows, net_connections_adds before_repairs true ipv6_ok (k_files true st) (to_procs (k_procs st)) (bs "unix") = Val rows
                              /\ length (spec_sys (bs "unix") st) = 4%nat /\ length rows = 3%nat.
 Proof. exact unix_shared_refuted. Qed.
 Print Assumptions C11_unix_shared_refuted.
@@ -138,7 +265,7 @@ Print Assumptions C11_unix_shared_refuted.
 Theorem C11_unix_lead_ws_refuted :
   exists st, wf_state st = true /\ files_text_safe true st = true /\ unix_unshared st = true
              /\ no_lead_ws st = false
-             /\ exists rows, net_connections before_repairs true (k_files true st) (to_procs (k_procs st)) (bs "unix") = Val rows
+             /\ exists rows, net_connections_adds before_repairs true ipv6_ok (k_files true st) (to_procs (k_procs st)) (bs "unix") = Val rows
                              /\ map e_laddr (spec_sys (bs "unix") st) = [APath (bs " lead"); APath (bs "@abstract name")]
                              /\ map r_laddr rows = [APath (bs "lead"); APath (bs "@abstract name")].
 Proof. exact unix_lead_ws_refuted. Qed.
@@ -147,10 +274,10 @@ Print Assumptions C11_unix_lead_ws_refuted.
 (* ... and the current code gives the demanded answer on the same two states (4 rows; " lead" kept) *)
 Theorem C11_repaired_witnesses :
   let v := current in
-  (exists rows, net_connections v true (k_files true (ex_state true (bs "/tmp/a b")))
+  (exists rows, net_connections_adds v true ipv6_ok (k_files true (ex_state true (bs "/tmp/a b")))
                                 (to_procs (k_procs (ex_state true (bs "/tmp/a b")))) (bs "unix") = Val rows
                 /\ length rows = 4%nat)
-  /\ (exists rows, net_connections v true (k_files true (ex_state false (bs " lead")))
+  /\ (exists rows, net_connections_adds v true ipv6_ok (k_files true (ex_state false (bs " lead")))
                                    (to_procs (k_procs (ex_state false (bs " lead")))) (bs "unix") = Val rows
                    /\ map r_laddr rows = [APath (bs " lead"); APath (bs "@abstract name")]).
 Proof. exact repaired_witnesses. Qed.
@@ -158,7 +285,7 @@ Print Assumptions C11_repaired_witnesses.
 
 (* the defect repaired by b838598: a UNIX path with a blank is returned whole *)
 Theorem C11_unix_path_with_blank :
-  exists rows, net_connections current true (k_files true (ex_state false (bs "/tmp/a b")))
+  exists rows, net_connections_adds current true ipv6_ok (k_files true (ex_state false (bs "/tmp/a b")))
                                (to_procs (k_procs (ex_state false (bs "/tmp/a b")))) (bs "unix") = Val rows
                /\ map r_laddr rows = [APath (bs "/tmp/a b"); APath (bs "@abstract name")].
 Proof. exact unix_path_with_blank. Qed.
